@@ -47,7 +47,7 @@ StaticReport == LET fs == {f \in 1..Len(P.fns) : EqBad(f)} IN
                 IF fs = {} THEN "" ELSE ToString(<<"fixpoint", CHOOSE f \in fs : TRUE>>)
 
 MInit == /\ Init /\ owe = [c \in 1..Len(cells) |-> Nil]
-         /\ lastN = <<0>> /\ off = FALSE /\ bad = StaticReport
+         /\ lastN = <<0>> /\ off = FALSE /\ bad = Reports0(StaticReport)
 
 MStep ==
   /\ Step
@@ -77,18 +77,21 @@ MStep ==
          \* `except E as name` variables are excepted (the analysis isolates them): never judged
          reads   == IF judged /\ n # 0 THEN {c \in rd' : c # 0 /\ cells[c] # Unbound /\ c \notin hb} ELSE {}
          readBad == {c \in reads : oweB[c] # Nil}
+         \* the reported obligation is discharged (not reported again at every later read of the same value)
+         rep1 == IF readBad = {} THEN 0 ELSE CHOOSE c \in readBad : TRUE
+         oweC == [c \in 1..Len(cells) |-> IF c = rep1 THEN Nil ELSE oweB[c]]
          \* after n executed: written cells start afresh; the others owe live_out(n)
          \* (for a call node the out-obligation is created when the call returns)
          After(c) ==
             LET nm == Nm(c) IN
             IF c \in wr' THEN (IF cells'[c] # Unbound /\ ~isPush /\ n # 0 /\ nm \notin LiveOut(f, n) THEN <<f, n, "out">> ELSE Nil)
             ELSE IF n # 0 /\ ~isPush /\ nm \notin LiveOut(f, n) THEN <<f, n, "out">>
-            ELSE oweB[c]
+            ELSE oweC[c]
          owe1 == [c \in 1..Len(cells') |->
                     IF c > Len(cells) THEN Nil
                     ELSE IF judged /\ c \in mine /\ (cells[c] # Unbound \/ c \in wr') THEN After(c)
                     ELSE IF c \in wr' THEN Nil
-                    ELSE oweB[c]]
+                    ELSE oweC[c]]
          \* return into the caller: the call node's live_out applies to the caller's variables now
          ce == tc.cenv   cf == IF isRet THEN envs[ce].fn ELSE f   calln == tc.node
          owe2 == IF ~isRet \/ off THEN owe1 ELSE
@@ -99,12 +102,12 @@ MStep ==
                     ELSE owe1[c]]
          offNow == how' = "exc" /\ (n = 0 \/ ND(n).kind # "raise" \/ nc2 < nc)
      IN
-     /\ bad' = IF bad # "" THEN bad
-               ELSE IF readBad # {} THEN
-                    LET c == CHOOSE c \in readBad : TRUE
+     /\ bad' = Note(bad,
+               IF readBad # {} THEN
+                    LET c == rep1
                         oe == OwnerOf(envs, c) IN
                     ToString(<<"live", f, n, NameOfCell(envs, oe, c), oweB[c][1], oweB[c][2], oweB[c][3], oe = e>>)
-               ELSE ""
+               ELSE "")
      /\ owe' = owe2
      /\ off' = (off \/ offNow)
      /\ lastN' = LET upd == IF n # 0 THEN [lastN EXCEPT ![nc] = n] ELSE lastN IN
